@@ -138,7 +138,7 @@ MANIFEST_TEXT = {
 }
 
 PROPS['C11'] = P(
-    ['quiescent_after_every_tree', 'quiescent_between_trees', 'runner_invariant', 'tracker_invariant'],
+    ['quiescent_after_every_tree', 'quiescent_between_trees', 'runner_invariant', 'tracker_invariant', 'no_unpolled_removal_or_despawn_when_a_tree_returns'],
     ['recursion', 'stale', 'mixed'], 'quiescent', determined=True,
     assumes=['data entities (DataEntityCounter / SystemEventData) being gone at quiescence is checked by the correspondence (snapshot data=0) and the m_quiescent monitor, not yet by a theorem',
              'obs_indep_history ("a tree behaves the same whatever ran before") follows informally from quiescence + ticket-independence of observations; not stated as a theorem'])
@@ -285,19 +285,20 @@ PROPS['C08'] = P(
      'watched_entity_sent_once_on_despawn_partial', 'unwatched_entity_sends_nothing_partial', 'poll_schedules_every_despawn_reactor_partial',
      'despawn_reactions_go_to_exactly_the_registered_reactors_partial', 'despawn_reactor_fires_at_most_once_per_entity_partial',
      'poll_empties_the_despawn_channel_partial',
-     'reactions_of_one_poll_are_parked_in_order', 'tickets_increase_in_parking_order', 'every_parked_reaction_is_set_up_exactly_once'],
+     'reactions_of_one_poll_are_parked_in_order', 'tickets_increase_in_parking_order', 'every_parked_reaction_is_set_up_exactly_once',
+     'a_tree_ends_with_nothing_unread', 'a_poll_and_what_it_schedules_leave_nothing_unread', 'a_frame_ends_with_nothing_unread'],
     ['poll', 'lifetime', 'mixed'], 'poll', determined=False,
-    assumes=['PARTIAL: step-level theorems for all states (recording, one poll, consumption); whole executions: every reaction scheduled by a poll is parked in the order the poll produced it and every parked command is set up exactly once (run or abort path); not proved: that a poll happens by the end of the enclosing tree / frame (structural in Machine.exec) — this rests on the correspondence (poll profile, frames with plain Bevy systems, direct world access)',
+    assumes=['PARTIAL: step-level theorems for all states (recording, one poll, consumption); whole executions: every reaction scheduled by a poll is parked in the order the poll produced it and every parked command is set up exactly once (run or abort path); polls come in time: whenever the runner returns (run, abort, postponement), whenever a poll with everything it schedules returns, and at the end of every frame, no removal record is unread and the despawn channel is empty (QuietSpec); not proved: the composition of these links into one log-level statement (one run line per removal record and registered reactor) — that is what the correspondence compares (poll profile, frames with plain Bevy systems, direct world access)',
              'Bevy RemovedComponents double-buffering is modelled by generation stamps and clear_trackers (World.v); causes in plain Bevy systems are the frame batches of TFrame'])
 MANIFEST_TEXT['C08'] = (
- "Partial proof. Machine-checked for all states: each removal of a reactive component is recorded exactly once under a fresh sequence number and nothing is recorded for a component that was not removed; one poll schedules, for every record a checker has not read, exactly the reactions of the reactors registered for that removal (C01 dispatch exactness), and advances every cursor so that a record is read once — in every reachable state (the sequence-number invariant is closed under every interpreter step); a watched entity is sent exactly once when it dies, a poll schedules one reaction per registered despawn handle, consumes the entity's table entry (at most one firing per watched entity) and empties the channel. For whole executions: every reaction a poll schedules is parked (fresh, strictly increasing ticket) in the order the poll produced it, and over a whole run every parked command is set up exactly once, by the run it causes or by the abort path. Not proved: the timing of polls relative to trees and frames; checked by differential runs of the poll profile (inserts, removals, re-inserts and despawns between polls; causes in reactors, in frame batches and by direct access; several reactors and despawn triggers per entity).",
+ "Partial proof. Machine-checked for all states: each removal of a reactive component is recorded exactly once under a fresh sequence number and nothing is recorded for a component that was not removed; one poll schedules, for every record a checker has not read, exactly the reactions of the reactors registered for that removal (C01 dispatch exactness), and advances every cursor so that a record is read once — in every reachable state (the sequence-number invariant is closed under every interpreter step); a watched entity is sent exactly once when it dies, a poll schedules one reaction per registered despawn handle, consumes the entity's table entry (at most one firing per watched entity) and empties the channel. For whole executions: every reaction a poll schedules is parked (fresh, strictly increasing ticket) in the order the poll produced it, and over a whole run every parked command is set up exactly once, by the run it causes or by the abort path. Polls come in time: whenever the system-command runner returns (after a run, an abort or a postponement), whenever a poll with everything it schedules returns, and at the end of every frame, the despawn channel is empty and no removal checker has an unread record (induction over the interpreter). Partial only in that these links are separate theorems, not one log-level statement; the composition is checked by differential runs of the poll profile (inserts, removals, re-inserts and despawns between polls; causes in reactors, in frame batches and by direct access; several reactors and despawn triggers per entity).",
  "Trusted: Coq kernel; model faithfulness (differential); Bevy RemovedComponents semantics as modelled. Partial: see above.",
  "Coq proof of the step-level behaviour (partial) + model/implementation correspondence", "DESIGN.md §5 C08")
 
 PROPS['C09'] = P(
     ['log_is_append_only', 'queued_commands_telescope', 'command_list_logs_blocks_in_order', 'runner_commands_run_inline', 'consequences_run_before_the_next_command',
      'postponed_only_while_the_target_executes', 'postponed_commands_queue_in_order', 'replay_front_to_back',
-     'replayed_runs_own_postponed_commands_come_first', 'commands_for_other_targets_keep_their_order', 'nothing_left_postponed'],
+     'replayed_runs_own_postponed_commands_come_first', 'commands_for_other_targets_keep_their_order', 'nothing_left_postponed', 'polled_reactions_run_by_the_end_of_the_tree'],
     ['recursion', 'mixed', 'poll'], 'order', determined=True,
     assumes=['the interpreter is big-step (a command\'s execution includes everything it causes); the theorems add that effects are laid down in that order (append-only log) and describe the postponement exception; "the order of run lines = depth-first order of the command tree" over whole programs is the compared observation (order projection: every mark, run and end line), not a single theorem',
              'the placement of polls (before and after every system command, end of frame) is structural in Machine.exec and compared'])
